@@ -777,6 +777,10 @@ func ruleGates(c *Ctx) {
 		}
 	}
 	subPtr := types.NewPointer(p.Named("server.Subscription"))
+	var accessPtr types.Type
+	if an := p.Named("rescache.Access"); an != nil {
+		accessPtr = types.NewPointer(an)
+	}
 	var names []string
 	for f := range roots {
 		names = append(names, fnName(f))
@@ -847,7 +851,16 @@ func ruleGates(c *Ctx) {
 					}
 				}
 				if call, isC := r.V.(*ssa.Call); isC {
-					if f := calleeFunc(call.Common()); f != nil {
+					f := calleeFunc(call.Common())
+					if f == nil && !call.Common().IsInvoke() {
+						// the access test handed over as a func value (`check(access, meta, access.CanGet)`)
+						if mc, isMC := t.Resolve(r.Fr, call.Common().Value).V.(*ssa.MakeClosure); isMC {
+							if bf := mc.Fn.(*ssa.Function); bf.Synthetic != "" {
+								f = boundMethod(bf)
+							}
+						}
+					}
+					if f != nil {
 						switch f {
 						case canGetA:
 							if nonNil {
@@ -876,6 +889,14 @@ func ruleGates(c *Ctx) {
 		sp.Inline = func(t *Tracer, fr *Frame, cl ssa.CallInstruction, fn *ssa.Function) bool {
 			if fn.Parent() != nil {
 				return true
+			}
+			// a plain helper of the package that is handed the access answer (checkHTTPAccess(access, ...))
+			if fn.Signature.Recv() == nil && fn.Pkg == root.Pkg && accessPtr != nil {
+				for _, a := range cl.Common().Args {
+					if types.Identical(a.Type(), accessPtr) {
+						return true
+					}
+				}
 			}
 			// follow the handler's own helpers (same receiver type), not the subscription's
 			if TopLevel(fn).Signature.Recv() != nil && root.Signature.Recv() != nil &&
